@@ -90,7 +90,10 @@ Proof. exact reject_unchanged. Qed.
 Print Assumptions C19_reject_unchanged.
 
 (** An older version for which there is no upgrader is rejected with DBError;
-    dbfile is untouched, the only change is the backup copy made before. *)
+    dbfile is untouched, the only change is the backup copy made before.  The
+    copy is not atomic (DbFiles.v: copy-create, copy-partial, copy): a crash
+    inside it leaves the backup path empty or holding a truncated prefix
+    ([partial_copy]); nothing else is ever written. *)
 Theorem C19_reject_too_old :
   forall (P : Type) (pempty : P) (fk_ok : P -> bool) (pdel : string -> P -> P),
   forall schema ups target (d : dbc P) v rest (f : fs P),
@@ -99,7 +102,8 @@ Theorem C19_reject_too_old :
   v < target -> find_upgrader ups (v + 1) = None ->
   run_all (get_db pempty fk_ok pdel schema ups target) f = (inr XDBError, set (Backup v) (Db d) f) /\
   forall k, let fk := run_prefix k (get_db pempty fk_ok pdel schema ups target) f in
-            fk = f \/ fk = set (Backup v) (Db d) f.
+            fk = f \/ fk = set (Backup v) Empty f \/ fk = set (Backup v) (partial_copy P) f \/
+            fk = set (Backup v) (Db d) f.
 Proof. exact reject_too_old. Qed.
 Print Assumptions C19_reject_too_old.
 
